@@ -977,7 +977,7 @@ def battery(ctx, chk, n_recipes, n_sp, focus=None):
 
 
 ANCHORS_PER_FAMILY = 20
-ANCHORS = {"constant": 80, "tensordot": 72, "independent": 64, "getitem": 48, "contraction": 40, "function": 24}
+ANCHORS = {"constant": 80, "tensordot": 72, "independent": 64, "getitem": 48, "contraction": 40, "function": 24, "binalign": 48}
 ANCHOR_MODES = {
     "subschain": ["normalize", "reflect>normalize", "eager"],
     "tensordot": ["eager", "normalize>eager"],
@@ -986,6 +986,7 @@ ANCHOR_MODES = {
     "integrate": ["eager", "reflect>eager", "normalize>eager", "reflect>normalize"],
     "gaussian": ["eager", "reflect>eager", "normalize>eager", "reflect>normalize"],
     "lambda": ["eager", "reflect>eager", "lazy"],
+    "binalign": ["eager", "reflect>eager", "lazy>eager"],
 }
 
 # registered rule functions of exact interpretations that CANNOT fire with a non-identity value-bearing rewrite
